@@ -109,3 +109,13 @@ pub open spec fn conv_apply(pow: int, x: real, c: Conversion) -> Option<real> {
         Conversion::Offset(f) => if pow == 1 || pow == -1 { Some(x + frac(f) * pow as real) } else { None },
     }
 }
+
+/// a scale with a zero point of its own (degC: Offset, degF: Methods)
+pub open spec fn offset_unit(u: Unit) -> bool {
+    match unit_conv(u) { Some(c) => !(c is Factor), None => false }
+}
+
+/// C09's guard, from the property text: an offset scale only ever takes part in a conversion when it stands alone with power one
+pub open spec fn offset_ok(s: Seq<(Unit, State)>) -> bool {
+    forall|i: int| 0 <= i < s.len() && offset_unit(#[trigger] s[i].0) ==> s.len() == 1 && s[i].1.power == 1
+}
